@@ -60,8 +60,10 @@ func (r *ComDoc) DeleteFile(name string) error {
 		if item.Type != DirStream {
 			return errors.New("can't delete or replace storages")
 		}
-		// free storage
-		if item.StreamSize < r.Header.MinStdStreamSize {
+		// free storage; an empty stream owns no sectors, whatever its start sector field holds
+		if item.StreamSize == 0 {
+			// nothing to free
+		} else if item.StreamSize < r.Header.MinStdStreamSize {
 			freeSectors(r.SSAT, item.NextSector)
 		} else {
 			freeSectors(r.SAT, item.NextSector)
